@@ -47,4 +47,29 @@ Proof.
   - destruct (find (fun m0 => ts <=? mtime m0) (live (abs st))) as [m0|]; [discriminate|reflexivity].
 Qed.
 
+(* the virtual handle of a read-only Open on an empty directory: no live message, GetByTime says so *)
+Lemma virt_get_by_time st c ts : Virt st -> opened st = Some c ->
+  check_get_by_time (abs st) (ctimes c) ts (obs_get (log_get_by_time H st ts)) = true.
+Proof.
+  intros (Hv & (v & Hs) & (c' & Hc' & Hro)) Hc. rewrite Hc in Hc'. injection Hc' as <-.
+  destruct st as [sg wc op lv]. cbn in *. subst.
+  unfold log_get_by_time, get_cfg. cbn [opened bind].
+  unfold check_get_by_time. destruct (ctimes c) eqn:Ht; cbn [negb]; [|reflexivity].
+  cbn. reflexivity.
+Qed.
+
+(* GetByTime on EVERY state reached by a monotone history, the read-only handle of an empty directory included *)
+Theorem get_by_time_on_all_monotone_histories p ops c ts :
+  Forall (uses p) ops -> thist_ok 0 ops ->
+  let st := fst (hrun H init_state ops) in
+  opened st = Some c ->
+  check_get_by_time (abs st) (ctimes c) ts (obs_get (log_get_by_time H st ts)) = true.
+Proof.
+  intros Hu Hok st Hc. destruct (lvirt st) eqn:Hv.
+  - destruct (thistory H p ops 0 init_state (tgood_init H p) Hu Hok) as ((HG & _) & _). fold st in HG.
+    destruct HG as [(Ho & _)|[HI|HV]]; [congruence| |now apply virt_get_by_time].
+    destruct HI as (_ & _ & _ & Hlv & _). congruence.
+  - now apply (get_by_time_on_monotone_histories H p ops c ts Hu Hok Hc).
+Qed.
+
 End Offsets.
